@@ -20,7 +20,7 @@ from typing import Any
 from automata.base.exceptions import InvalidStateError, SymbolMismatchError
 from automata.fa.dfa import DFA
 
-from harness import gen, langoracle
+from harness import c04_large_products, gen, langoracle
 from harness.common import guarded, Ctx, Names, Toks, call, enc_dfa, sym_names, toks
 from harness.dfaops_common import (check_valid, lang_mismatch, parse_canon, py_canon, render_block,
                                    render_pair, renderer_atoms)
@@ -36,7 +36,15 @@ RULE = ("cases = (operation, option combination, operand DFAs); quick: seeded ra
         "to_complete, | & - ^, isempty, isfinite, maximum_word_length, ==, <=) on ONE object kept alive, every result "
         "evaluated; the same sequences (after 0–2 unjudged queries, one step often repeated) on operands built under "
         "allow_mutable_automata=True from PLAIN set/dict containers, every result judged against FROZEN TWINS (the "
-        "definitions as built); non-trivial = every operand has ≥2 "
+        "definitions as built); LARGE PRODUCTS (harness/c04_large_products.py, on every run): operand pairs with "
+        "closed-form languages whose product has about 130–600 reachable pairs that re-enter early pairs — counters "
+        "'number of a ≡ r mod m' × 'number of b ≡ s mod n', 'length mod m' × 'length mod n' (one cycle of m·n pairs), "
+        "complete and partial variants, DFA.of_length / from_finite_language / nth_from_end / count_mod operands "
+        "with dozens of states × a counter — every one of the 4 operations × 4 option combinations, the operators, "
+        "chains (A op B) op C, A op (B op C), ~(A op B) op C; judged by closed-form membership on ~260 words around "
+        "the periods (multiples of m, n, lcm, bounds, ±1) through the real accepts_input, by the complete product "
+        "search, and by the expected minimal state count where the outermost operation minifies (no model "
+        "correspondence for this family); non-trivial = every operand has ≥2 "
         "reachable states and the result language is neither empty nor universal; distinct = distinct "
         "(operation, options, encoded operands)")
 ASSUMPTIONS = [
@@ -45,7 +53,11 @@ ASSUMPTIONS = [
 ]
 EXPLANATION = ("Theorems C04_* (Props/C04.lean) prove for the model that every Boolean operation returns a valid DFA "
                "with exactly the set-operation language for all operands and options; this run ties the model to "
-               "the code and evaluates the property on the real results with an independent complete product search.")
+               "the code and evaluates the property on the real results with an independent complete product search.  "
+               "The proofs are about the model of automata/fa/dfa.py; helpers it calls (automata/base/utils.py: renaming "
+               "function, PartitionRefinement — listed in the notes and the uses_helper:* stats) are modelled by their "
+               "specification, so size-dependent behaviour of those helpers is covered by the large-product family "
+               "(products of 130–600 pairs, closed-form oracle), which runs on every run.")
 
 SMALL_PAIR_SLICES = 8
 
@@ -507,6 +519,8 @@ def run(ctx: Ctx):
     run_corpus(ctx)
     run_empty_alphabet(ctx)
     run_junk_trap(ctx, ctx.budget(150, 3000))
+    # 0. large products (size thresholds of the product construction and of the helpers it uses): EVERY run
+    c04_large_products.run_large_products(ctx)
     # 1. pairs of small DFAs.  thorough: the pairs with index ≡ seed (mod SLICES) get ALL 4 operations × ALL 4
     #    option combinations (the seeds 0..SLICES-1 together cover every pair completely); every other pair gets
     #    one random combination.  quick: a seeded random sample (nothing exhaustive is claimed).
@@ -599,6 +613,8 @@ def replay(ctx: Ctx, path: str) -> int:
                             rp.get("option_during_calls", True), "replay")
     elif op == "sequence":
         do_sequence(ctx, eval(rp["A"], env), eval(rp["B"], env), rp["steps"], "replay")
+    elif op == "large_product":
+        c04_large_products.replay_case(ctx, rp)
     elif op == "expression" and "tree" in rp:
         do_expr(ctx, [eval(x, env) for x in rp["leaves"]], 0, tree=rp["tree"])
     else:
